@@ -44,7 +44,12 @@ BATCH = 150
 BASE_CELLS = {
     21: M.AND(M.S(7), M.S(-8)),
     22: M.OR(M.S(-7), M.AND(M.S(8), M.S(9))),
-    23: M.AND(M.CELLC(21), M.S(-9)),
+    # #22 (the complement of a union) as a direct operand of an intersection,
+    # and the dual; then cells that complement those cells again
+    23: M.AND(M.S(-9), M.CELLC(22)),
+    24: M.OR(M.S(9), M.CELLC(21)),
+    25: M.AND(M.CELLC(21), M.S(-9)),
+    26: M.AND(M.CELLC(23), M.S(8), M.CELLC(24)),
 }
 POLICIES = {
     'plain': {},
@@ -92,7 +97,7 @@ def core_items(maxleaves):
     leaf_choices = []
     for k in range(4):
         sid = k + 1
-        leaf_choices.append([M.S(sid), M.S(-sid), M.CELLC(21 + k % 3)])
+        leaf_choices.append([M.S(sid), M.S(-sid), M.CELLC(21 + k)])
     for nl in range(1, maxleaves + 1):
         for shape in shapes(nl):
             nint = count_internal(shape)
